@@ -15,9 +15,22 @@ parts (each case is one table / spline):
              and akima (+ options): linear methods by identity / superposition / value-independence of the
              Jacobian; akima by complex step on the control values.
   mmsc       MetaModelStructuredComp partials (vec_size > 1) w.r.t. the inputs (7-point differences of the
-             component's own outputs, two step sizes must agree) and w.r.t. the training values
-             (identity + superposition; akima: differences of the outputs).
-  splinecomp SplineComp partials w.r.t. the control points (same oracles).
+             component's own outputs, two step sizes must agree; akima axes >= 1: complex step through the
+             component) and w.r.t. the training values (identity + superposition; akima: complex step through
+             the component + Euler identity <df/dv, v> = f).
+  splinecomp SplineComp partials w.r.t. the control points (same oracles; akima: complex step through the
+             component + Euler identity).
+
+Smoothness of akima (why no difference formula is used for it except along axis 0 of a table): a 1-D akima
+spline is a cubic in x inside a cell, but its end slopes b = (|m4-m3| m2 + |m2-m1| m3)/(|m4-m3| + |m2-m1|) are
+rational in the node values with |.| kinks.  In an N-D table the node values of the axis-0 spline are the
+sub-table interpolants, i.e. functions of x[1:]: along the inner axes and along every table value the
+interpolant is piecewise rational, and its smooth pieces end wherever some slope difference changes sign -
+not only at grid nodes.  A central-difference formula of order p is exact (or converges at order p) only if the
+whole stencil lies in one smooth piece; the location of the kinks is not known to the oracle, so a stencil
+cannot be guaranteed to avoid them, and two step sizes can agree while both straddle one.  Complex step
+evaluates the analytic continuation of the piece the query point lies in (the code negates by the sign of the
+real part, which is the continuation of |.| away from 0) and needs no margin.
 
 Tolerances are derived: value round-off delta = omv.ref.interp_ref.value_tol (32*ndim*eps*kappa*max|v|);
 a derivative w.r.t. x_d divides differences of such values by a local spacing, so its round-off is bounded by
@@ -61,7 +74,8 @@ SPLINE = ['slinear', 'lagrange2', 'lagrange3', 'cubic', 'akima', 'bsplines',
 REQUIRED_COUNTERS = (['obs:d_dx:complex-step', 'obs:d_dx:fd7', 'obs:d_dx:batched', 'obs:gradient-method',
                       'obs:training-gradient-identity', 'obs:superposition', 'obs:spline:identity',
                       'obs:spline:jacobian-value-independent', 'obs:spline:akima-complex-step',
-                      'obs:mmsc:d_dx', 'obs:mmsc:d_dtrain-identity', 'obs:mmsc:d_dtrain-fd',
+                      'obs:mmsc:d_dx', 'obs:mmsc:d_dx-complex-step', 'obs:mmsc:d_dtrain-identity',
+                      'obs:mmsc:d_dtrain-complex-step', 'obs:mmsc:d_dtrain-euler',
                       'obs:splinecomp:identity', 'obs:splinecomp:fd']
                      + ['cell:ddx:' + m for m in GENERAL + FIXED]
                      + ['cell:train:' + m for m in LINEAR]
@@ -529,6 +543,15 @@ def judge_mmsc(case, acc):
         acc.skip('ill-conditioned-grid')
         return
     names = ['x%d' % d for d in range(nd)]
+    # The general N-D akima table is a piecewise polynomial (cubic) only along its FIRST axis: the node values
+    # of the axis-0 spline are the sub-table interpolants, and the spline is a non-linear function of them
+    # (slope weights |m_i+1 - m_i|).  Along axes >= 1 and along every table value it is therefore piecewise
+    # *rational* and loses smoothness wherever a slope difference changes sign - anywhere inside a cell.  No
+    # difference stencil is exact there (and one that straddles such a point does not even converge at its
+    # nominal order), so these directions are judged by complex step through the component (the component and
+    # its tests document complex-step support for the non-scipy methods), which needs no smoothness beyond the
+    # query point itself.
+    nonpoly = method == 'akima'
 
     def build(with_train):
         prob = om.Problem()
@@ -541,7 +564,7 @@ def judge_mmsc(case, acc):
             c.add_input(n, 0.0, training_data=g.copy())
         c.add_output('f', 0.0, training_data=v1.copy())
         prob.model.add_subsystem('c', c, promotes=['*'])
-        prob.setup()
+        prob.setup(force_alloc_complex=nonpoly)
         prob.run_model()
         f1 = np.array(prob.get_val('f')).ravel().copy()
         wrt = list(names) + (['f_train'] if with_train else [])
@@ -572,11 +595,67 @@ def judge_mmsc(case, acc):
         prob.run_model()
         return np.array(prob.get_val('f')).ravel().copy()
 
+    def run_cs(Xc, train):
+        """Outputs (complex) of the same component for complex inputs."""
+        prob.set_complex_step_mode(True)
+        try:
+            for d, n in enumerate(names):
+                prob.set_val(n, Xc[:, d])
+            prob.set_val('f_train', train)
+            prob.run_model()
+            return np.array(prob.get_val('f')).ravel().copy()
+        finally:
+            for d, n in enumerate(names):      # no imaginary part may survive in the shared vectors
+                prob.set_val(n, X[:, d].astype(complex))
+            prob.set_val('f_train', v1.astype(complex))
+            prob.set_complex_step_mode(False)
+
+    # condition estimate of the akima derivative formulas (see module docstring): the same partials on a table
+    # perturbed by 1e-12*max|v|, per unit relative perturbation
+    cond_x = cond_t = None
+    if nonpoly and tdg:
+        try:
+            pert = v1 + 1e-12 * vmax * rng.uniform(-1, 1, size=v1.shape)
+            run(X, pert)
+            Jp = prob.compute_totals(of=['f'], wrt=list(names) + ['f_train'], return_format='dict')['f']
+            cond_x = np.array([np.abs(np.diag(np.array(Jp[n], dtype=float).reshape(K, K))
+                                      - np.diag(J[n].reshape(K, K))) for n in names]).T / 1e-12    # (K, nd)
+            cond_t = np.abs(np.array(Jp['f_train'], dtype=float).reshape(K, v1.size)
+                            - J['f_train'].reshape(K, v1.size)).max(axis=1) / 1e-12                 # (K,)
+            run(X, v1)
+        except Exception as e:
+            rep.viol('raises:%s@%s:mmsc:%s' % (type(e).__name__, _where(e), method), str(e)[:200])
+            nonpoly = False
+
     # ---- d f / d x : diagonal K x K blocks
     try:
         for ax, n in enumerate(names):
             Jx = J[n].reshape(K, K)
             off = Jx - np.diag(np.diag(Jx))
+            if nonpoly and ax >= 1 and not tdg:
+                acc.count('skip:akima-inner-axis-without-training-input')   # (the raise is already reported)
+                continue
+            if nonpoly and ax >= 1:
+                Xc = X.astype(complex)
+                Xc[:, ax] += 1j * CS
+                fc = run_cs(Xc, v1.astype(complex))
+                ref = fc.imag / CS
+                tol = 2 * (5.0 * delta / dist[:, ax] + 64 * R.EPS * cond_x[:, ax])
+                acc.count('obs:mmsc:d_dx-complex-step')
+                rep.judged = True
+                if np.any(off != 0.0):
+                    rep.viol('mmsc:d_dx-offdiagonal:%s' % method, 'non-zero coupling between vec entries')
+                if not np.all(np.abs(fc.real - f1) <= 2 * delta):
+                    rep.viol('mmsc:complex-step-changes-value:%s' % method,
+                             'outputs %s but real part under complex step %s' % (f1.tolist(), fc.real.tolist()))
+                bad = ~(np.abs(np.diag(Jx) - ref) <= tol)
+                if bad.any():
+                    j = int(np.argmax(bad))
+                    rep.viol('mmsc:d_dx:%s' % method,
+                             'x=%s axis %d: partial %r, complex step through the component %r (tol %.3g)'
+                             % (X[j].tolist(), ax, float(np.diag(Jx)[j]), float(ref[j]), tol[j]))
+                    break
+                continue
             h = dist[:, ax].min() / 4.0
             D1 = _fd7(run, X, ax, h)
             D2 = _fd7(run, X, ax, h / 2.0)
@@ -604,31 +683,40 @@ def judge_mmsc(case, acc):
     if tdg:
         try:
             Jt = J['f_train'].reshape(K, v1.size)
-            if 'akima' in method:
-                sel = rng.choice(v1.size, size=min(6, v1.size), replace=False)
-                hv = 1e-3 * vmax
+            if 'akima' in method and cond_t is None:
+                acc.count('skip:akima-no-condition-estimate')      # (the raise is already reported)
+            elif 'akima' in method:
+                # complex step on the table values (akima is only piecewise smooth in them, see above)
+                sel = rng.choice(v1.size, size=min(24, v1.size), replace=False)
+                tol = 2 * (8 * delta / vmax + 64 * R.EPS * cond_t)
                 for q in sel:
-                    def rt(s):
-                        t = v1.copy().ravel()
-                        t[q] += s
-                        return run(X, t.reshape(v1.shape))
-                    D1 = np.tensordot(W5, np.array([rt(s * hv) for s in (-2, -1, 0, 1, 2)]), axes=(0, 0)) / hv
-                    D2 = np.tensordot(W5, np.array([rt(s * hv / 2) for s in (-2, -1, 0, 1, 2)]), axes=(0, 0)) / (hv / 2)
-                    trunc = np.abs(D1 - D2)
-                    tol = 2 * trunc + 1.5 * 2 * delta / (hv / 2) + 8 * delta / vmax
-                    ok_pts = tol <= 1e-5 * (1 + np.abs(D2))
-                    acc.count('obs:mmsc:d_dtrain-fd')
-                    if not ok_pts.all():
-                        acc.count('skip:fd-unreliable', int((~ok_pts).sum()))
-                    if ok_pts.any():
-                        rep.judged = True
-                    bad = ok_pts & ~(np.abs(Jt[:, q] - D2) <= tol)
+                    t = v1.astype(complex).ravel()
+                    t[q] += 1j * CS
+                    fc = run_cs(X.astype(complex), t.reshape(v1.shape))
+                    ref = fc.imag / CS
+                    acc.count('obs:mmsc:d_dtrain-complex-step')
+                    rep.judged = True
+                    if not np.all(np.abs(fc.real - f1) <= 2 * delta):
+                        rep.viol('mmsc:complex-step-changes-value:%s' % method,
+                                 'outputs %s but real part under complex step %s' % (f1.tolist(), fc.real.tolist()))
+                        break
+                    bad = ~(np.abs(Jt[:, q] - ref) <= tol)
                     if bad.any():
                         j = int(np.argmax(bad))
                         rep.viol('mmsc:d_dtrain:%s' % method,
-                                 'x=%s table entry %d: partial %r, 5-point difference %r (tol %.3g)'
-                                 % (X[j].tolist(), int(q), Jt[j, q], D2[j], tol[j]))
+                                 'x=%s table entry %d: partial %r, complex step through the component %r (tol %.3g)'
+                                 % (X[j].tolist(), int(q), float(Jt[j, q]), float(ref[j]), tol[j]))
                         break
+                # Euler identity, independent of the complex path: every slope and every weight |m_a - m_b| is
+                # homogeneous of degree 1 in the table, so f(c*v) = c*f(v) and  <df/dv, v> = f.
+                acc.count('obs:mmsc:d_dtrain-euler')
+                got = Jt @ v1.ravel()
+                tolE = 8 * delta + 64 * R.EPS * cond_t * float(np.abs(v1).sum())
+                if not np.all(np.abs(got - f1) <= tolE):
+                    j = int(np.argmax(np.abs(got - f1) - tolE))
+                    rep.viol('mmsc:d_dtrain-euler-identity:%s' % method,
+                             'x=%s: <partial, training values>=%r but output=%r (tol %.3g)'
+                             % (X[j].tolist(), float(got[j]), float(f1[j]), tolE[j]))
                 run(X, v1)
             else:
                 acc.count('obs:mmsc:d_dtrain-identity')
